@@ -1,10 +1,12 @@
 //! Harness binary for the write-fonts / skrifa dependency cone.
+mod c05;
 mod c06;
 
 fn main() {
     fvcore::quiet_panics();
     let args: Vec<String> = std::env::args().skip(1).collect();
     match args.first().map(|s| s.as_str()) {
+        Some("c05") => c05::main(&args[1..]),
         Some("c06") => c06::main(&args[1..]),
         _ => {
             eprintln!("usage: fv-write <c06|...> ...");
